@@ -923,7 +923,14 @@ func runLines(inputs []string, remote func(fields []string) bool) []string {
 }
 
 func heavyLine(fields []string) bool {
-	return specLen(fields[len(fields)-1]) > 1<<20
+	// the last field is a spec or a comma-separated list of record specs
+	n := 0
+	for _, p := range strings.Split(fields[len(fields)-1], ",") {
+		if p != "." {
+			n += specLen(p)
+		}
+	}
+	return n > 1<<20
 }
 
 func readInputLines(path string) []string {
